@@ -124,6 +124,9 @@ def sites_of(fn):
                 out.append(Site(fn, bi, "K2", K2_NAMES[callee], "", t["line"], t["exp"], t))
             elif callee in K4_DECLARED:
                 out.append(Site(fn, bi, "K4", callee, "", t["line"], t["exp"], t))
+            elif callee == "std::convert::Into::into" and len(t.get("gargs") or []) >= 2 and t["gargs"][0] in ("&[u8]",) \
+                    and ("pallas_primitives::Hash<" in t["gargs"][1] or "pallas_crypto::hash::Hash<" in t["gargs"][1]):
+                out.append(Site(fn, bi, "K4", "<%s as From<&[u8]>>::from via into()" % t["gargs"][1].split("::")[-1], "", t["line"], t["exp"], t))
             else:
                 for sub, why in K4_RESOLVED_SUBSTR:
                     if sub in resolved or sub in callee:
@@ -162,6 +165,8 @@ def inventory(F, cg, roots, crates=None):
         f = F.fns[p]
         if crates and f["crate"] not in crates:
             continue
+        # coroutine bodies (async fns): the state-machine form hides provenance; use the pre-transform MIR
+        f = F.built.get(p, f)
         n_fns += 1
         if is_derive(f):
             continue
